@@ -244,3 +244,23 @@ def denoteR {α} (arom : α → Bool) (rbs : α → List RingBond) (c : Chain α
     | some (as, bs, tbl) => if tbl.isEmpty then some { atoms := c.start :: as, bonds := rb0 ++ bs } else none
 
 end ChythonModel.Spec.Smiles
+
+/-!
+## Simple graphs
+
+OpenSMILES, ring closures: "Two atoms cannot be joined by more than one bond, and an atom cannot be bonded to itself":
+`C12CCCCC12` (two ring bonds between the same pair), `C1CC=1` is fine but `C=1C1`/`C1C1`-like double joins and `C11` are
+not SMILES. The same holds for a ring bond that joins two atoms already joined by a chain bond (`C1C1`).
+-/
+namespace ChythonModel.Spec.Smiles
+
+/-- two bonds join the same unordered pair of atoms -/
+def samePair (a b : Nat × Nat × Nat) : Bool :=
+  (a.1 == b.1 && a.2.1 == b.2.1) || (a.1 == b.2.1 && a.2.1 == b.1)
+
+/-- no bond from an atom to itself, no two bonds between the same pair -/
+def simpleBonds : List (Nat × Nat × Nat) → Bool
+  | [] => true
+  | b :: tl => b.1 != b.2.1 && !tl.any (samePair b) && simpleBonds tl
+
+end ChythonModel.Spec.Smiles
